@@ -157,6 +157,11 @@ def cases(draw, gamma=False):
         cs["gamma"] = draw(st.sampled_from(["statistical", "shuffle"]))
         cs["n_samples"] = draw(st.integers(1, 4))
         cs["seed"] = draw(st.integers(0, 2 ** 31 - 1))
+    elif draw(st.integers(0, 3)) == 0:
+        from . import c02
+        cs = draw(c02.larger_cases())        # dense 3x12 continua: the solver has to branch, column order (= annotator names) matters to it
+        cs.pop("backend", None)
+        cs.pop("xcheck", None)
     else:
         cs = draw(gen.continuum_and_spec(min_ann=2, max_ann=5, budget=8000, max_per=60, unlabelled_ratio=0.25))
     cs["rename"] = draw(st.sampled_from(["reverse", "preserve", "arbitrary"]))
